@@ -33,6 +33,10 @@ impl Rng {
     pub fn pick<'a, T>(&mut self, xs: &'a [T]) -> &'a T {
         &xs[self.below(xs.len())]
     }
+    /// Picks one string from a slice of string slices.
+    pub fn ps<'a>(&mut self, xs: &[&'a str]) -> &'a str {
+        xs[self.below(xs.len())]
+    }
     pub fn byte(&mut self) -> u8 {
         (self.next() & 0xFF) as u8
     }
